@@ -182,6 +182,16 @@ def ext_reply(a, rng, rid, src, aggr, pub_req, alter_without_cal=False):
     links = new_cal_chain(rng, src, pub, aggr, shape_aggr=shape_for, alter_rlink=(a["rlinks"] == "altered" and (src.cal is not None or alter_without_cal)))
     if links is None:
         return "unrealisable", None
+    if a["shape"] == "bad" and a["aggrtime"] == "same":
+        # other realisations of "the link directions are not the shape of the requested leaf": a surplus link at the leaf end (left / right), a surplus
+        # left link at the root end, the lowest link missing -- each kept only if the reference derivation does not give the requested time for it
+        how = rng.choice(["othertime", "leaf-left", "leaf-left", "leaf-right", "root-left", "drop"])
+        if how != "othertime":
+            base = new_cal_chain(rng, src, pub, aggr, alter_rlink=False)
+            extra = ksi.fake_imprint(1, rng.randbytes(8))
+            cand = {"leaf-left": [(True, extra)] + base, "leaf-right": [(False, extra)] + base, "root-left": base + [(True, extra)], "drop": base[1:]}[how]
+            if cand and ksi.cal_time([l for l, _ in cand], pub) != aggr:
+                links = cand
     root_in = src.root()[0]
     inp = sigcase.flip(root_in) if a["input"] == "other" else root_in
     cal = ksi.cal_chain_tlv(pub, field_aggr, inp, links)
